@@ -56,7 +56,7 @@ pub trait Expanded<'a, Views, Containments, Indices, CanonicalContainments, Resh
     resource::Resources
 {
     /// The canonical form of the `Views` with respect to the resources.
-    type Canonical: Reshape<Views, ReshapeIndices>;
+    type Canonical;
 
     fn view(&'a mut self) -> Views;
 
@@ -152,7 +152,10 @@ where
         (Views::View, Resources::Canonical),
         (CanonicalContainment, CanonicalContainments),
     >,
-    (Views::View, Resources::Canonical): Reshape<Views, (ReshapeIndex, ReshapeIndices)>,
+    // The indices reshaping this level's canonical views are independent of the ones used for the
+    // remaining resources (`ReshapeIndices`): those reshape a different list into a different
+    // target, and sharing them rejected most orders of three or more views.
+    (Views::View, Resources::Canonical): Reshape<Views, ReshapeIndex>,
 {
     type Canonical = (Views::View, Resources::Canonical);
 
